@@ -176,11 +176,30 @@ TReconcile ==
 TReset == /\ IsEvent("reset") /\ seq' = [num |-> 0, ver |-> 0] /\ tabs' = [n \in {} |-> 0] /\ hi' = 0 /\ maxid' = IdStart
           /\ used' = {} /\ alloc' = [m \in Mgrs |-> {}] /\ call' = [m \in Mgrs |-> NoCall] /\ data' = [i \in {} |-> {}] /\ slashed' = {}
 
+\* {"ev":"lagcreate","name":..,"existed":bool,"res":..,"id":n,"previd":n} : CreateTable calls that never overlap, on a
+\* three-node cluster whose metadata replicas lag (vdrive cataloglag): absent concurrent catalogue changes a creation
+\* succeeds exactly if the name is free, with an id above every id assigned before
+TLagCreate ==
+  /\ IsEvent("lagcreate")
+  /\ IF Ev.res = "ok" <=> ~Ev.existed THEN TRUE
+     \* KNOWN FINDING StaleCatalogRead: the name was deleted through another node, this node's replica still shows it
+     ELSE Ev.lagging /\ ~Ev.existed /\ Ev.res = "exists" /\ Dev("StaleCatalogRead")
+  /\ (Ev.res = "ok" => Ev.id > Ev.previd /\ Ev.id > IdStart)
+  /\ UNCHANGED <<seq, tabs, hi, maxid, used, alloc, call, data, slashed>>
+
+\* {"ev":"laglookup","name":..,"exists":bool,"found":bool,"lagging":bool} : lookup / listing reflect precisely the created and
+\* not deleted tables.  KNOWN FINDING StaleCatalogRead: every catalogue read is a local read of the node's metadata replica;
+\* while that replica is behind, a table created through another node is not found and a deleted one still is
+TLagLookup ==
+  /\ IsEvent("laglookup")
+  /\ IF Ev.found = Ev.exists THEN TRUE ELSE Ev.lagging /\ Dev("StaleCatalogRead")
+  /\ UNCHANGED <<seq, tabs, hi, maxid, used, alloc, call, data, slashed>>
+
 \* store calls this specification does not interpret (cleanup records written by stopTable etc.)
 TOther == IsEvent("sother") /\ UNCHANGED <<seq, tabs, hi, maxid, used, alloc, call, data, slashed>>
 
 TNext == TExists \/ TGetSeq \/ TGetTab \/ TSetSeq \/ TSetTab \/ TDelTab \/ TGetAll \/ TRet \/ TPut \/ TRange \/ TRestored
-         \/ TDiff \/ TReconcile \/ TReset \/ TOther
+         \/ TDiff \/ TReconcile \/ TReset \/ TOther \/ TLagCreate \/ TLagLookup
 TSpec == TInit /\ [][TNext]_vars
 
 TraceAccepted ==
